@@ -12,6 +12,7 @@ import (
 
 	"pgregory.net/rapid"
 
+	postscript "seehuhn.de/go/postscript"
 	"seehuhn.de/go/postscript/afm"
 	"seehuhn.de/go/postscript/type1"
 
@@ -34,14 +35,47 @@ type readCase struct {
 	At       int    `json:"at"`
 	WithData bool   `json:"with_data"`
 	Truncate bool   `json:"truncate"`
-	Once     bool   `json:"once"` // transient fault
+	Once     bool   `json:"once"`               // transient fault
 	ErrKind  string `json:"err_kind,omitempty"` // "": sentinel error; "unexpected-eof": io.ErrUnexpectedEOF
+	// Reuse: the same interpreter and the same reader object served an
+	// earlier, complete call before (interpreter target only)
+	Reuse bool `json:"reuse,omitempty"`
+}
+
+// checkReuse: one interpreter, one reader object.  A first call reads a short
+// program to its end; the reader object is then loaded with the case's data
+// and fault and handed to Execute again.
+func checkReuse(c *readCase) (msg string, delivered bool) {
+	intp := postscript.NewInterpreter()
+	intp.MaxOps = targets.InterpMaxOps
+	r := &iofault.FailAt{Data: []byte("/first 1 def\n"), At: 1 << 30}
+	if err := intp.Execute(r); err != nil {
+		return "the preparing call fails: " + err.Error(), false
+	}
+	*r = iofault.FailAt{Data: c.Data, At: c.At, WithData: c.WithData}
+	err := intp.Execute(r)
+	if r.Delivered && err == nil {
+		return fmt.Sprintf("interpreter: a read fault at offset %d of %d (data with error: %v) was delivered to the library but the call returned no error (second call on the same interpreter with the same reader object, reloaded)", c.At, len(c.Data), c.WithData), true
+	}
+	// the same data and fault on a fresh interpreter and reader: does the run
+	// get as far as the fault at all?
+	fresh := &iofault.FailAt{Data: c.Data, At: c.At, WithData: c.WithData}
+	fi := postscript.NewInterpreter()
+	fi.MaxOps = targets.InterpMaxOps
+	fi.Execute(fresh)
+	if fresh.Delivered && !r.Delivered && err == nil {
+		return fmt.Sprintf("interpreter: the second call on the same interpreter with the same reader object (reloaded with %d bytes and a fault at offset %d) returned no error without reading up to the fault, which a fresh interpreter and reader reach", len(c.Data), c.At), true
+	}
+	return "", r.Delivered
 }
 
 func checkRead(c *readCase) (msg string, delivered bool) {
 	tg, ok := targets.ByName(c.Target)
 	if !ok {
 		return "unknown target", false
+	}
+	if c.Reuse {
+		return checkReuse(c)
 	}
 	if c.Truncate {
 		full, ferr := tg.Run(bytes.NewReader(c.Data))
@@ -105,7 +139,7 @@ func genReadInput(t *rapid.T) (target string, data []byte, label string, truncat
 func TestP1ReadFaults(t *testing.T) {
 	rec := ev.New("C13", "readfaults")
 	defer rec.Finish(t)
-	rec.Rule("for each generated input (programs incl. eexec sections, single-CMap files, Type 1 fonts in the four containers from both writers, AFM files, PFB streams; up to 8 KB): a read fault (a distinct sentinel error, or for half of the inputs io.ErrUnexpectedEOF in the persistent forms) at EVERY byte offset 0..len, with the error returned alone or together with the last bytes before the offset, persistent (every later read fails too; both forms) or transient (error returned alone once, reading would continue normally afterwards); for Type 1 and CMap files additionally a truncation at EVERY offset. Oracle: if the fault was delivered to the library (the wrapper records it) and the bytes before it do not already determine the complete result (the input cut off at the fault offset reads differently from the whole input - otherwise a buffering reader may legitimately never look at the fault) the call must return a non-nil error and must not panic; a truncated file must give an error or the result of the complete file. Non-trivial: fault delivered and strictly inside the data; distinct by (input, offset, variant).")
+	rec.Rule("for each generated input (programs incl. eexec sections, single-CMap files, Type 1 fonts in the four containers from both writers, AFM files, PFB streams; up to 8 KB): a read fault (a distinct sentinel error, or for half of the inputs io.ErrUnexpectedEOF in the persistent forms) at EVERY byte offset 0..len, with the error returned alone or together with the last bytes before the offset, persistent (every later read fails too; both forms) or transient (error returned alone once, reading would continue normally afterwards); for Type 1 and CMap files additionally a truncation at EVERY offset; for programs additionally the persistent fault at every offset in a second call on the same interpreter with the same reader object (a first call read a short program to its end; the object was reloaded). Oracle: if the fault was delivered to the library (the wrapper records it) and the bytes before it do not already determine the complete result (the input cut off at the fault offset reads differently from the whole input - otherwise a buffering reader may legitimately never look at the fault) the call must return a non-nil error and must not panic; a truncated file must give an error or the result of the complete file. Non-trivial: fault delivered and strictly inside the data; distinct by (input, offset, variant).")
 	ev.SetupRapid(60, 1600)
 	rapid.Check(t, func(t *rapid.T) {
 		target, data, label, trunc := genReadInput(t)
@@ -118,11 +152,15 @@ func TestP1ReadFaults(t *testing.T) {
 		rec.Class("error:" + errKind)
 		h := ev.Hash(string(data))
 		for at := 0; at <= len(data); at++ {
-			for v := 0; v < 4; v++ {
+			for v := 0; v < 5; v++ {
+				if v == 4 && target != "interpreter" {
+					continue
+				}
 				// v=3: transient fault, returned without data (a fault returned
 				// together with data is only asserted in its persistent form:
 				// io.ReadFull legitimately defers such an error to the next read)
 				c := &readCase{Target: target, Data: data, At: at, WithData: v == 1, Truncate: v == 2, Once: v == 3}
+				c.Reuse = v == 4
 				if v < 2 {
 					// only in persistent form: io.ReadFull maps an early end to
 					// the same value, so a transient one is indistinguishable
